@@ -6,7 +6,7 @@ int main() {
   util::FilePiece in(0);
   util::FileStream out(1);
   util::StringPiece line;
-  while (in.ReadLineOrEOF(line)) {
+  while (in.ReadLineOrEOF(line, '\n', false)) {
     if (util::IsUTF8(line)) {
       out << line << '\n';
     }
